@@ -57,12 +57,21 @@ int main(int argc, char** argv) {
   Ctx ctx(argc, argv);
   const bool T = ctx.thorough();
   std::vector<geodtab::Ell> ells = geodtab::ellipsoids();
+  // THRESHOLDS ON f IN THE CODE: GeodesicLine::GenPosition adds a Newton step to the reverted distance series iff |f| > 0.01, and the
+  // documentation promises full accuracy up to |f| = 0.02.  Flattenings just below and above 0.01 and INSIDE the band (0.01, 0.02),
+  // both signs (a = WGS84 a; documented 25 nm up to 0.01 and 30 nm up to 0.02).  Quick: +-0.0195.
+  {
+    struct FB { const char* n; double f; bool q; } fb[] = {{"f=0.0195", 0.0195, true}, {"f=-0.0195", -0.0195, true}, {"f=0.0185", 0.0185, false}, {"f=-0.0185", -0.0185, false},
+      {"f=0.017", 0.017, false}, {"f=-0.017", -0.017, false}, {"f=0.015", 0.015, false}, {"f=-0.015", -0.015, false}, {"f=0.0125", 0.0125, false}, {"f=-0.0125", -0.0125, false},
+      {"f=1/52", 1 / 52.0, false}, {"f=0.0101", 0.0101, false}, {"f=-0.0101", -0.0101, false}, {"f=0.0099", 0.0099, false}, {"f=-0.0099", -0.0099, false}};
+    for (auto& b : fb) { geodtab::Ell x; x.name = b.n; x.a = geodtab::wgs84_a(); x.f = b.f; x.quick = b.q; x.series = true; x.e = geod_ode::Ellipsoid<ld>(x.a, x.f); x.Q = x.e.quarter_meridian(); ells.push_back(x); }
+  }
   const std::vector<double> lats = geodlat::direct_lats(T), azis = geodlat::direct_azis(T), lons = geodlat::direct_lons(T);
   const std::vector<geodlat::LSpec> lspec = geodlat::direct_lengths(T);
   const int nforms = T ? 7 : 4;
 
   ctx.sub("direct");
-  ctx.bound("direct.ellipsoids", geodlat::ellipsoid_text(T));
+  ctx.bound("direct.ellipsoids", std::string(geodlat::ellipsoid_text(T)) + (T ? " + the f-threshold bands: f in {+-0.0099, +-0.0101, +-0.0125, +-0.015, +-0.017, +-0.0185, +-0.0195, 1/52} (a = 6378137)" : " + f = +-0.0195 (inside the band 0.01 < |f| < 0.02 of the Newton-step threshold)"));
   ctx.bound("direct.lat1", geodlat::direct_lat_text(T));
   ctx.bound("direct.azi1", geodlat::direct_azi_text(T));
   ctx.bound("direct.lon1", T ? "{0,179.5,-180,540,-0,1e-13,-359.5,90-ulp}" : "{0,179.5,-180,540}");
